@@ -13,8 +13,8 @@ use vh::{run_main, Ctx, Local};
 fn pool() -> Vec<String> {
     let mut v = vec![];
     let spec: [(&str, &[&str]); 9] = [
-        ("a", &["", ":5", ":10", ":-1", ":x", ":"]),
-        ("b", &["", ":5", ":10"]),
+        ("a", &["", ":5", ":10", ":-1", ":x", ":", ":0", ":100"]),
+        ("b", &["", ":5", ":10", ":-5", ":9"]),
         ("a-alias", &["", ":10"]),
         ("missing", &["", ":10"]),
         ("perm", &["", ":10"]),
